@@ -492,7 +492,28 @@ _RULE = ("battery (G1 small-scope subsets over {a,b}, G2 structured random with 
          "parameter vectors × {built, reloaded}; %s; non-trivial = at least 2 strings; distinct by hash of (kind, params, strings, ops)")
 _ASSUME = ["the input contract validDict (sorted, duplicate-free, bytes 0x02..0xFE)"]
 
-PROPS["C02"] = PropSpec(simple_dict_prop(c02_ops, ALL_KINDS, "absent", scale="scale_ops_absent"),
+def c02_streams(tier, rng):
+    base = simple_dict_prop(c02_ops, ALL_KINDS, "absent", scale="scale_ops_absent")(tier, rng)
+    # queries made of bytes with the longest codewords (rare or foreign to a large skewed dictionary): the
+    # encoded query is longer than two bytes per symbol
+    S, rare, probe = longcw_dict(tier, rng)
+    r = rng.fork("c02long")
+    foreign = [bytes(r.range(0x80, 0xFE) for _ in range(L)) for L in (9, 10, 16, 40, 150, 400)]
+    foreign += [bytes(r.choice([0xD0, 0xD1, 0xE0, 0xE3, 0xE5, 0xFE, 0x02]) for _ in range(L)) for L in (12, 60, 200)]
+    foreign += [probe[0] + bytes([0xF0] * 30), bytes([0x61]) * 300]
+    lc = []
+    for kind in ("HTFC", "HHTFC", "RPHTFC", "HASHHF", "HASHUFFDAC"):
+        op = "loc" if kind in EXACT_ID_KINDS else "rt"
+        for pv in ({"b": 8, "ov": 25}, {"b": 64, "ov": 0}):
+            for ph, pre in (("b", []), ("l", [["reload", "own", 1]])):
+                ops = pre + [[op, hx(q)] for q in foreign] + [[op, hx(x)] for x in probe[:6]]
+                if kind in PREFIX_KINDS:
+                    ops += [["pre", hx(q[:20])] for q in foreign[:5]]
+                lc.append(("c2l_%s_%d_%s" % (kind, pv["b"], ph), "dict", kind, pv, S, ops))
+    return base + [StreamSet("longcodes", "asan", lc, timeout=120)]
+
+
+PROPS["C02"] = PropSpec(c02_streams,
                         _RULE % "queries: members, proper prefixes, one-byte extensions, ±1 on the last byte, below first / above last, bytes absent from the dictionary; IDs 0, n+1, 2^32±1, 2^64−1",
                         _PART, "the refinement theorems read at non-members; ASan monitors the reads of the real code", _ASSUME)
 def c03_streams(tier, rng):
